@@ -18,7 +18,7 @@ def cases(seed, n_rand, thorough=False):
         for a in pool:
             for b in pool:
                 out.append([0, [], op, a, b])
-    for op in (7, 8, 9, 10, 13, 14, 16):
+    for op in (7, 8, 9, 10, 13, 14, 16, 19):
         for a in pool:
             out.append([0, [], op, a, 0])
     for a in I32:
@@ -31,7 +31,7 @@ def cases(seed, n_rand, thorough=False):
     for t in NUMTOK:
         out.append([0, [], 12, [ord(c) for c in t]])
     for _ in range(n_rand):
-        op = rng.choice([0, 1, 2, 3, 4, 4, 5, 7, 8, 9, 10, 11, 11, 11, 16])
+        op = rng.choice([0, 1, 2, 3, 4, 4, 5, 7, 8, 9, 10, 11, 11, 11, 16, 19, 19])
         a, b = rand_f32(rng), rand_f32(rng)
         if op == 11:
             out.append([0, [], 11, rng.choice([1, 3, 3]), a])
